@@ -48,7 +48,7 @@ claim("C10", "other",
       "trusted: catalogue sa/oracles/eft_reference.py with citations; exactness of normalising identities in RN arithmetic; power-of-two splitter variant accepted without citation",
       "symbolic dataflow extraction of straight-line kernels + normal-form equality against a catalogue", "DESIGN.md §3/C10")
 claim("C04", "other",
-      "Decides soundness of the rewriter's local rules: every reachable row of the three comparison-folding tables on the float lattice; relop column wiring; every rewrite extracted by abstract interpretation of the Rewriter/Expr.rewrite source on a finite family of expression shapes, decided on a finite exact model (incl. zero, booleans, complex, nested rounding grids for casts); Expr._is_* answers over operand value classes x knowledge masks. Branch coverage of the Rewriter by the family is measured and reported. Not decided: termination/exceptions for arbitrary DAGs, folding in numpy dtypes, shapes outside the family.",
+      "Decides soundness of the rewriter's local rules: every reachable row of the three comparison-folding tables on the float lattice; relop column wiring; every rewrite extracted by abstract interpretation of the Rewriter/Expr.rewrite source on a finite family of expression shapes, decided on a finite exact model (untyped floats, numpy-typed float32/float64 with IEEE rounding and constant folding in the modelled dtype, booleans, complex); Expr._is_* answers over operand value classes x knowledge masks. Branch coverage of the Rewriter by the family is measured and reported. Not decided: termination/exceptions for arbitrary DAGs, folding in numpy dtypes, shapes outside the family.",
       "trusted: sa/absint.py interpreter, sa/exprsem.py semantics, lattice oracle; 2 known findings (upcast(downcast), divide by infinite constant)",
       "abstract interpretation of the rule source + finite-model checking of extracted rewrites; literal-table audit", "DESIGN.md §3/C04")
 claim("C08", "other",
